@@ -2109,7 +2109,13 @@ namespace
                 {
                     for (pop_frame_count++; pop_frame_count != 0; --pop_frame_count)
                     {
+                        // The operands a left scope still had pending are dropped with it
+                        auto value_stack_pos = context.current_frame().value_stack_pos();
                         context.pop_frame();
+                        while (context.values_size() > value_stack_pos)
+                        {
+                            context.pop_value(true);
+                        }
                     }
                     return left;
                 }
